@@ -127,12 +127,17 @@ func init() {
 	c18.Assume = []string{"symbolic links inside the root that point outside are not generated (the statement lists parent references, absolute paths and sibling prefixes)"}
 	props["C18"] = &c18
 	props["C12"] = &propCfg{
-		Harness: "apisim", Pkgs: "log,modules,config,api,rng", QuickRuns: 8000, ThoroughRuns: 300000, RunsPerProc: 200,
+		Harness: "apisim", Pkgs: "log,modules,config,api,rng,database,database/iterator,database/storage/hashmap,database/storage/bbolt", ExtPkgs: "go.etcd.io/bbolt,github.com/bluele/gcache", QuickRuns: 8000, ThoroughRuns: 300000, RunsPerProc: 200,
 		QuickWall: 75 * time.Second, ThoroughWall: 15 * time.Minute, Level: "exploration",
 		Rule: "one evaluation = one simulated history of 3-18 steps: configure API keys (read/write permission, expiry), switch development mode, advance the clock (session TTL, key expiry), clean sessions, and requests to mainHandler.ServeHTTP with every method (incl. OPTIONS with/without preflight header, PATCH), a handler declaring any of 9 read/write permissions (NotFound, Dynamic, NotSupported, Anyone, User, Admin, Self, out of range), credentials (none, Bearer/Basic key valid/expired/unknown/0-3 bytes, malformed Authorization, session cookie valid/expired/unknown, scripted authenticator token/nil/error/denied with valid and invalid permissions, bridge address) and Origin headers; every response is compared with an independent decision function; distinct = distinct hash of the request/response sequence; non-trivial = at least one request was sent",
 		Real: []string{"portbase/api router, authentication, request context (instrumented)", "portbase/config (real option registry and getters)", "portbase/modules (RunWorker, microtasks), portbase/log"},
 		Stub: []string{"rng entropy feeders (generator seeded deterministically)", "no sockets: httptest recorder + mainHandler.ServeHTTP", "config-change event hook replaced by a direct call of the key import"},
 	}
+	c13 := *props["C12"]
+	c13.QuickRuns, c13.ThoroughRuns, c13.RunsPerProc = 6000, 300000, 150
+	c13.Rule = "one evaluation = one simulated run: 1-3 DatabaseAPI connections (CreateDatabaseAPI with a recording send function) each sending 1-10 messages (get, query, sub, qsub, create, update, insert, delete, cancel of live/finished/unknown operations, raw malformed messages) with keys in and out of existing databases, valid and invalid query texts, payloads in JSON/CBOR/garbage, against a hashmap or bbolt database holding JSON, struct and RAW records, plus a concurrent privileged writer feeding subscriptions; every request is handled on its own goroutine as in production and the scheduler interleaves them; oracle: per-request reply automaton, reply IDs belong to the connection, terminal replies after quiescence, write->read-back JSON equality plus _meta, process survival; distinct = distinct hash of request/reply counts; non-trivial = at least 2 goroutine switches"
+	c13.Stub = []string{"no websocket: CreateDatabaseAPI with a recording send function"}
+	props["C13"] = &c13
 	props["C20"] = &propCfg{
 		Harness: "logsim", Pkgs: "log", QuickRuns: 4000, ThoroughRuns: 150000, RunsPerProc: 100,
 		QuickWall: 70 * time.Second, ThoroughWall: 15 * time.Minute, Level: "exploration",
